@@ -351,6 +351,13 @@ func c22Rt(sdk *miscSDK, idx int, tag, kind, extra string) (out string) {
 		add("Zz", c22StringType, "Zz", "zv")
 	}
 	st := reflect.StructOf(fields)
+	// is X part of the stored model at all? (reserved slot, or one of the body fields the shape detector reports)
+	persisted := c22IsReserved(head)
+	if _, names, err := hydraidego.VerifCatalogShape(st); err == nil {
+		for _, n := range names {
+			persisted = persisted || n == head
+		}
+	}
 	m := reflect.New(st)
 	for _, s := range sets {
 		s(m.Elem())
@@ -372,8 +379,8 @@ func c22Rt(sdk *miscSDK, idx int, tag, kind, extra string) (out string) {
 		return "bad"
 	}
 	for i := range fields {
-		if i == xIdx && head == "" {
-			continue // an untagged field is not persisted by design
+		if i == xIdx && !persisted {
+			continue // a field whose tag head is empty (or a skip marker) is not persisted by design
 		}
 		a, b := m.Elem().Field(i).Interface(), back.Elem().Field(i).Interface()
 		same := a == b
@@ -454,7 +461,7 @@ func c22Run(in *bufio.Scanner, w *bufio.Writer) {
 			}
 			fmt.Fprintf(w, "shape=%s body=%s es=%s et=%s ds=%s dt=%s\n", sh, strings.Join(hx, ","),
 				c22EncProbe(t, false), c22EncProbe(t, true), c22DecProbe(t, false), c22DecProbe(t, true))
-		case (f[0] == "rt" && len(f) == 4) || (f[0] == "val" && len(f) == 5) || (f[0] == "upd" && len(f) == 6):
+		case (f[0] == "rt" && len(f) == 4) || (f[0] == "val" && len(f) == 5) || (f[0] == "upd" && len(f) == 6) || (f[0] == "shape" && len(f) == 2) || (f[0] == "pupd" && len(f) == 5):
 			t, ok := tagOf(f[1])
 			if f[0] != "rt" {
 				t, ok = "", true
@@ -481,7 +488,11 @@ func c22Run(in *bufio.Scanner, w *bufio.Writer) {
 					fmt.Fprintln(os.Stderr, "c22: register:", errs)
 				}
 			}
-			if f[0] == "val" {
+			if f[0] == "shape" {
+				fmt.Fprintln(w, c22Shape(sdk, idx, f[1]))
+			} else if f[0] == "pupd" {
+				fmt.Fprintln(w, c22Val(sdk, idx, "p", f[1], f[2], f[3], f[4]))
+			} else if f[0] == "val" {
 				fmt.Fprintln(w, c22Val(sdk, idx, f[1], f[2], f[3], f[4], ""))
 			} else if f[0] == "upd" {
 				fmt.Fprintln(w, c22Val(sdk, idx, f[1], f[2], f[3], f[4], f[5]))
